@@ -201,6 +201,21 @@ KERNELS += [
          c_header="int K_rda_ax_offset(const int num_rings, const float m_off, const float ring_spacing)", loops=0,
          rules=[(r"ax_pos_num_offset\[segment_num\] = round\(", "const int K_o = K_round_value(", 1), (r"m_offset\[segment_num\]", "m_off", 1)],
          post="return K_o;"),
+    dict(name="K_pdic_ctor_swap", file=CYL_CXX, cxx_name="ProjDataInfoCylindrical constructor: block 'check min,max ring diff' (statement kernel)",
+         func=r"ProjDataInfoCylindrical::ProjDataInfoCylindrical\([^)]*\)", nth=1,
+         span=(r"for \(int segment_num = get_min_segment_num\(\); segment_num <= get_max_segment_num\(\); \+\+segment_num\)\s*if \(min_ring_diff\[segment_num\] > max_ring_diff\[segment_num\]\)\s*\{\s*warning",
+               r"std::swap\(min_ring_diff\[segment_num\], max_ring_diff\[segment_num\]\);\s*\}"),
+         c_header="void K_pdic_ctor_swap(struct PDI2* self)", loops=1,
+         rules=[(r"warning\(boost::format\((?:\"[^\"]*\"|[^;\"])*\);", "(void)0;", 1),
+                (r"std::swap\(min_ring_diff\[segment_num\], max_ring_diff\[segment_num\]\);", "K_swap_short(SEGP(self, min_ring_diff, segment_num), SEGP(self, max_ring_diff, segment_num));", 1),
+                (r"get_(min|max)_segment_num\(\)", r"self->\1_seg", 2),
+                (r"(?<![\w>.])(min|max)_ring_diff\[(\w+)\]", r"SEGV(self, \1_ring_diff, \2)", 2)]),
+    dict(name="K_rda_check", file=CYL_CXX, cxx_name="initialise_ring_diff_arrays: block 'check min,max ring diff' (statement kernel)", func=RDA,
+         span=(r"for \(int segment_num = get_min_segment_num\(\); segment_num <= get_max_segment_num\(\); \+\+segment_num\)\s*if \(min_ring_diff\[segment_num\] > max_ring_diff\[segment_num\]\)\s*\{\s*error",
+               r"segment_num\);\s*\}"),
+         c_header="void K_rda_check(const struct PDI2* self)", loops=1,
+         rules=[(r'error\((?:"[^"]*"|[^;"])*\);', "K_THROW_VOID;", 1), (r"get_(min|max)_segment_num\(\)", r"self->\1_seg", 2),
+                (r"(?<![\w>.])(min|max)_ring_diff\[(\w+)\]", r"SEGV(self, \1_ring_diff, \2)", 2)]),
     dict(name="K_rda_fill_rd2seg", file=CYL_CXX, cxx_name="initialise_ring_diff_arrays: block 'initialise ring_diff_to_segment_num' (statement kernel)", func=RDA,
          span=(r"const int min_ring_difference = \*min_element\(", r'does not belong to a segment"\) % ring_diff\);\s*\}\s*\}'),
          c_header="void K_rda_fill_rd2seg(const struct PDI2* self)", loops=2,
@@ -360,6 +375,8 @@ def jobs(tier, gen_dir):
     for F in TOF_MASH[tier]:
         enforce("K_get_bin_for_det_pos_pair", "/N=16/F=%d" % F, lc=False, repl=["K_get_bin_for_det_pair"], defines={"C01_N": 16, "C01_F": F},
                 params={"num_detectors_per_ring": 16, "tof_mash_factor": F}, backend=os.environ.get("C01_FB", "sat"))
+    enforce("K_pdic_ctor_swap")
+    enforce("K_rda_check")
     enforce("K_rda_fill_rd2seg", repl=["K_min_rd", "K_max_rd"])
     out.append(Job("c01/lemma_rd2seg", HARNESS, "h_lemma_rd2seg", kind="lemma", kernels=["K_rda_fill_rd2seg"], replace=["K_rda_fill_rd2seg"], flags=CHK, no_base_flags=True,
                    min_obligations=3, timeout=300, backend="kissat"))
